@@ -597,6 +597,9 @@ func (env *Env) quant(x *EQuant) (*Term, types.Type) {
 		default:
 			ty = basicType(v.Type)
 			if ty == nil {
+				ty = env.fc.eng.lookupTypeByName(v.Type)
+			}
+			if ty == nil {
 				efail("unknown bound variable type %s", v.Type)
 			}
 			s = SortOf(ty)
@@ -792,6 +795,30 @@ func (env *Env) callExpr(x *ECall) (*Term, types.Type) {
 			t = SlArr(t)
 		}
 		return Op("<=", SBool, t, st.alloc), nil
+	case "$seen":
+		// $seen(k): key k was already visited by the map-range loop whose header carries the
+		// invariant (every present key is visited exactly once; at exit all present keys are)
+		if env.at == nil {
+			efail("$seen is only available in loop invariants")
+		}
+		for _, in := range env.at.Instrs {
+			nx, ok := in.(*ssa.Next)
+			if !ok {
+				continue
+			}
+			rs := env.fr.ranges[nx.Iter]
+			if rs == nil || rs.seen == "" {
+				continue
+			}
+			k, _ := arg(0)
+			ks := mapKeySort(rs.kt)
+			if v, ok := pendingNums[k]; ok {
+				k = numAs(v, ks)
+			}
+			return Select(env.fc.get(st, rs.seen, SArr(ks, SBool)), k), nil
+		}
+		efail("$seen: no map range at this loop header")
+		return nil, nil
 	case "has":
 		m, mty := arg(0)
 		k, _ := arg(1)
